@@ -566,3 +566,17 @@ Qed.
 
 Print Assumptions produced_supply.
 Print Assumptions trace_ok_reachable.
+
+(* non-vacuity: a well-formed net with workers everywhere, run to a clean end *)
+Definition nv_net : net :=
+  [ {| nid := 1; nkind := KSync; nworkers := 1; ncap := 1; ndisc := false; nkids := [1]; nhandler := None; nrole := RRoot |};
+    {| nid := 2; nkind := KSync; nworkers := 1; ncap := 1; ndisc := false; nkids := []; nhandler := None; nrole := RChild |} ].
+Definition nv_sch : list action :=
+  [SrcEmit 5; MainSend; Deq 0 0; Return 0 0 (ORes [7%Z]); SendW 0 0; Deq 1 0; Return 1 0 (ORes []);
+   SrcReturnNil; MainSeeClosed; MainCloseRoots;
+   SeeClosed 0 0; LastOut 0 0; OnceEnter 0 0; ShutdownReturn 0 0; CloseKids 0 0;
+   SeeClosed 1 0; LastOut 1 0; OnceEnter 1 0; ShutdownReturn 1 0; CloseKids 1 0; MainWgDone].
+Example trace_ok_nonvacuous :
+  wf_net nv_net = true /\ forallb (fun x => 0 <? nworkers x) nv_net = true
+  /\ exists s, run nv_net 1 (init nv_net) nv_sch = Ok s /\ mn s = MDone /\ timedout s = false /\ length (tr s) = 15.
+Proof. split; [reflexivity|]. split; [reflexivity|]. eexists. split; [vm_compute; reflexivity|]. vm_compute. auto. Qed.
